@@ -1,6 +1,7 @@
 package main
 
 import (
+	"bytes"
 	"encoding/json"
 	"flag"
 	"fmt"
@@ -79,7 +80,9 @@ func readReplay(path string) *Replay {
 		panic(err)
 	}
 	var r Replay
-	if err := json.Unmarshal(b, &r); err != nil {
+	dec := json.NewDecoder(bytes.NewReader(b))
+	dec.UseNumber()
+	if err := dec.Decode(&r); err != nil {
 		panic(err)
 	}
 	return &r
